@@ -101,6 +101,19 @@ def random_stamps(rng, pts, others):
     return sorted(out)
 
 
+def with_baro(rng, meas, alt):
+    """The filters accept user-written Measurement subclasses (documented extension point): in a third of the 3D runs one sensor
+    is a SCALAR barometric altitude measurement defined by the harness (filt.BaroAltitude): one-row z, H, R, results keyed by its
+    own class name.  (Only with altitude: without it there is no altitude state to observe.)"""
+    if alt and meas and rng.rand() < 0.35:
+        meas[int(rng.randint(len(meas)))][0] = "BaroAltitude"
+
+
+def without_baro(task):
+    """For runs that are switched to 2D after they were drawn (C13)."""
+    task["meas"] = [[c, st] for c, st in task["meas"] if c != "BaroAltitude"]
+
+
 def random_task(rng, kind, seed):
     pts, dt = rounding_gap_points(rng) if rng.rand() < 0.12 else random_points(rng)
     span = pts[-1] - pts[0]
@@ -113,6 +126,7 @@ def random_task(rng, kind, seed):
         meas.append([str(c), st])
     step = float(rng.choice([0.3 * dt, dt, 0.1, 1.0, 10 * span + 1, dt * (1 + 1e-12), 2.5 * dt, dt / 7]))
     alt = bool(rng.rand() < 0.5)
+    with_baro(rng, meas, alt)
     models = str(rng.choice(["none", "default", "bias", "full", "asym"]))
     t = dict(kind=kind, start=pts[0], imu=pts[1:] if kind == "fb" else pts, meas=meas, step=step, alt=alt,
              models=models, form=str(rng.choice(["list", "none", "empty"])), seed=int(seed),
@@ -133,6 +147,7 @@ def task_from_cfg(kind, cfg, seed, rng):
     names = list(rng.permutation(CLASSES)[:ns])
     meas = [[str(names[s]), [TICK * t for t in sorted(cfg["meas"][s])]] for s in range(ns)]
     alt = bool(rng.rand() < 0.5)
+    with_baro(rng, meas, alt)
     models = str(rng.choice(["none", "default", "bias", "full", "asym"]))
     return dict(kind=kind, start=TICK * pts[0], imu=[TICK * t for t in (pts[1:] if kind == "fb" else pts)], meas=meas,
                 step=TICK * step, alt=alt, models=models, form=str(rng.choice(["list", "none", "empty"])), seed=int(seed),
